@@ -99,7 +99,21 @@ def equal_bits_c(out, site, a, b, msg=""):
 def lib_expand(out, A, site="real_expand"):
     m, n, _ = A.shape
     ok, R = out.call(site, L.utils.real_expand, Q(A))
-    return as_real(out, site, R, (4 * m, 4 * n)) if ok else None
+    R = as_real(out, site, R, (4 * m, 4 * n)) if ok else None
+    if R is not None and min(m, n) >= 2:
+        # the same matrix handed over in other memory layouts (Fortran order, transposed view, strided view):
+        # the embedding depends on the values only
+        views = {"F-ordered": np.asfortranarray(Q(A)), "transposed view": Q(np.swapaxes(A, 0, 1)).T}
+        big = np.zeros((2 * m, 2 * n), dtype=np.quaternion)
+        big[::2, ::2] = Q(A)
+        views["strided view"] = big[::2, ::2]
+        for nm, Av in views.items():
+            okv, Rv = out.call(f"{site}({nm} argument)", L.utils.real_expand, Av)
+            if okv:
+                Rv = as_real(out, f"{site}({nm} argument)", Rv, (4 * m, 4 * n))
+                if Rv is not None:
+                    out.equal_bits(f"{site}({nm} argument):same embedding as for the C-contiguous argument", Rv, R)
+    return R
 
 
 def lib_realp(out, A, site="Realp(matrices)", view=False):
@@ -111,7 +125,16 @@ def lib_realp(out, A, site="Realp(matrices)", view=False):
 def lib_adjoint(out, A, site="quaternion_to_complex_adjoint"):
     n = A.shape[0]
     ok, M = out.call(site, L.utils.quaternion_to_complex_adjoint, Q(A))
-    return as_complex(out, site, M, (2 * n, 2 * n)) if ok else None
+    M = as_complex(out, site, M, (2 * n, 2 * n)) if ok else None
+    if M is not None and n >= 2:
+        for nm, Av in {"F-ordered": np.asfortranarray(Q(A)), "transposed view": Q(np.swapaxes(A, 0, 1)).T}.items():
+            okv, Mv = out.call(f"{site}({nm} argument)", L.utils.quaternion_to_complex_adjoint, Av)
+            if okv:
+                Mv = as_complex(out, f"{site}({nm} argument)", Mv, (2 * n, 2 * n))
+                if Mv is not None:
+                    out.equal_bits(f"{site}({nm} argument):same adjoint as for the C-contiguous argument",
+                                   np.stack([Mv.real, Mv.imag]), np.stack([M.real, M.imag]))
+    return M
 
 
 def lib_contract(out, R, m, n, site):
